@@ -80,8 +80,8 @@ impl Monitor for C10 {
     }
     fn cases(&self, tier: Tier) -> u64 {
         match tier {
-            Tier::Quick => 30_000,
-            Tier::Thorough => 1_000_000,
+            Tier::Quick => 100_000,
+            Tier::Thorough => 1_500_000,
         }
     }
     fn required_counters(&self) -> Vec<&'static str> {
@@ -236,6 +236,52 @@ impl Monitor for C10 {
                                 jobj! {"model"=>arr.to_json(),"a"=>a,"b"=>b,"f(a+b)"=>f[a+b],"f(a)"=>f[a],"f(b)"=>f[b]},
                             );
                             break 'sub;
+                        }
+                    }
+                }
+            }
+        }
+
+        // ---- arrival::Curve collected from an iterator (FromIterator makes the distances monotonic)
+        {
+            use std::iter::FromIterator;
+            let n = rng.usize(1, 6);
+            let mut raw: Vec<u64> = (0..n).map(|_| rng.range(0, 3 * g.scale)).collect();
+            if raw.iter().all(|x| *x == 0) {
+                raw[n - 1] = 1;
+            }
+            let r = guard(|| {
+                let c = response_time_analysis::arrival::Curve::from_iter(raw.iter().map(|x| Duration::from(*x)));
+                let hmax = 4 * raw.iter().max().unwrap() + 4;
+                (table(&c, hmax), (2..=n + 1).map(|k| u64::from(c.min_distance(k))).collect::<Vec<u64>>())
+            });
+            rep.count("from_iter_curves_checked", 1);
+            match r {
+                Err(c) => rep.violation(format!("C10 impl=Curve::from_iter kind={} class={}", c.kind, c.class()), jobj! {"input"=>&raw,"caught"=>c.to_json()}),
+                Ok((f, dist)) => {
+                    let mut hull = raw.clone();
+                    for i in 1..n {
+                        hull[i] = hull[i].max(hull[i - 1]);
+                    }
+                    if dist != hull {
+                        rep.violation("C10 impl=Curve::from_iter kind=distances-are-not-the-running-maximum-of-the-input".to_string(), jobj! {"input"=>&raw,"min_distances"=>&dist,"running_maximum"=>&hull});
+                    }
+                    if f[0] != 0 || (1..f.len()).any(|x| f[x] < f[x - 1]) {
+                        rep.violation("C10 impl=Curve::from_iter kind=not-zero-at-zero-or-decreases".to_string(), jobj! {"input"=>&raw});
+                    }
+                    // every sequence respecting the (hull) distances is bounded
+                    let comp = Comp { base: Base::Dmin(hull.clone()), jitter: 0 };
+                    let seq = comp.sequence(&mut rng, SeqMode::Dense, 2, f.len() as u64 - 1, 300);
+                    'w2: for i in 0..seq.len() {
+                        for j in i..seq.len() {
+                            let span = seq[j] - seq[i] + 1;
+                            if span as usize >= f.len() {
+                                break;
+                            }
+                            if (j - i + 1) as u64 > f[span as usize] {
+                                rep.violation("C10 impl=Curve::from_iter kind=window-holds-more-events-than-number_arrivals".to_string(), jobj! {"input"=>&raw,"sequence"=>&seq,"window_start"=>seq[i],"window_length"=>span,"events"=>j-i+1,"number_arrivals"=>f[span as usize]});
+                                break 'w2;
+                            }
                         }
                     }
                 }
